@@ -113,6 +113,42 @@ Definition chan_step {M} (s : chan M) (o : op M) : option (chan M) :=
 
 Definition step {M} (s s' : chan M) : Prop := exists o, chan_step s o = Some s'.
 
+(* The same relation written rule by rule, for reading next to memory_bound_channel.rs
+   ([step s s' <-> astep s s'] is proved in Proofs/ChannelProofs.v). *)
+Definition upd {M} (s : chan M) (usage : N) (q : list (M * N)) (sp : spc M) (rp : rpc M)
+  (handed delivered : list M) (maxsz : N) : chan M :=
+  mkChan (c_cap s) usage q sp rp handed delivered maxsz.
+Inductive astep {M} (s : chan M) : chan M -> Prop :=
+| a_fetch_add_admit m sz :            (* line 45 + 50: old_usage <= capacity *)
+    c_spc s = SIdle -> c_usage s <= c_cap s ->
+    astep s (upd s (c_usage s + sz) (c_queue s) (SPush m sz) (c_rpc s) (c_handed s ++ [m]) (c_delivered s) (N.max (c_maxsz s) sz))
+| a_fetch_add_wait m sz :             (* line 45 + 50: old_usage > capacity *)
+    c_spc s = SIdle -> c_cap s < c_usage s ->
+    astep s (upd s (c_usage s + sz) (c_queue s) (SWaiting m sz) (c_rpc s) (c_handed s ++ [m]) (c_delivered s) (N.max (c_maxsz s) sz))
+| a_load_spin m sz :                  (* line 53: load - size > capacity *)
+    c_spc s = SWaiting m sz -> sz <= c_usage s -> c_cap s < c_usage s - sz ->
+    astep s (upd s (c_usage s) (c_queue s) (SWaiting m sz) (c_rpc s) (c_handed s) (c_delivered s) (c_maxsz s))
+| a_load_pass m sz :                  (* line 53: load - size <= capacity *)
+    c_spc s = SWaiting m sz -> sz <= c_usage s -> c_usage s - sz <= c_cap s ->
+    astep s (upd s (c_usage s) (c_queue s) (SPush m sz) (c_rpc s) (c_handed s) (c_delivered s) (c_maxsz s))
+| a_load_underflow m sz :             (* line 53: the subtraction underflows *)
+    c_spc s = SWaiting m sz -> c_usage s < sz ->
+    astep s (upd s (c_usage s) (c_queue s) SUnderflow (c_rpc s) (c_handed s) (c_delivered s) (c_maxsz s))
+| a_push m sz :                       (* line 58 *)
+    c_spc s = SPush m sz ->
+    astep s (upd s (c_usage s) (c_queue s ++ [(m, sz)]) SIdle (c_rpc s) (c_handed s) (c_delivered s) (c_maxsz s))
+| a_pop m sz t :                      (* lines 71 / 80 *)
+    c_rpc s = RIdle -> c_queue s = (m, sz) :: t ->
+    astep s (upd s (c_usage s) t (c_spc s) (RPopped m sz) (c_handed s) (c_delivered s) (c_maxsz s))
+| a_try_empty :                       (* line 80 on an empty queue *)
+    c_rpc s = RIdle -> c_queue s = [] -> astep s s
+| a_fetch_sub m sz :                  (* lines 74 / 83, then Ok(msg) *)
+    c_rpc s = RPopped m sz -> sz <= c_usage s ->
+    astep s (upd s (c_usage s - sz) (c_queue s) (c_spc s) RIdle (c_handed s) (c_delivered s ++ [m]) (c_maxsz s))
+| a_fetch_sub_underflow m sz :        (* lines 74 / 83 wrapping below zero *)
+    c_rpc s = RPopped m sz -> c_usage s < sz ->
+    astep s (upd s (c_usage s) (c_queue s) (c_spc s) RUnderflow (c_handed s) (c_delivered s) (c_maxsz s)).
+
 Inductive reach {M} (cap : N) : chan M -> Prop :=
 | reach_init : reach cap (chan_init cap)
 | reach_step s s' : reach cap s -> step s s' -> reach cap s'.
